@@ -268,6 +268,21 @@ class ChartGen:
                 self.bad_construction.append([src, tgt, ev, guard, act, pr])
             self.contracts(t)
             sc.add_transition(t)
+            if getattr(k, 'dups', 0) and r.random() < k.dups:
+                # the same transition declared twice (a copy-and-paste in the description): two transitions
+                t3 = Transition(src, tgt, event=ev, guard=guard, action=act, priority=pr)
+                t3.preconditions, t3.postconditions, t3.invariants = (
+                    list(t.preconditions), list(t.postconditions), list(t.invariants))
+                before = len(sc.transitions)
+                sc.add_transition(t3)
+                if len(sc.transitions) != before + 1:
+                    self.bad_construction.append(['dup', src, tgt, ev, guard, act, pr])
+            if getattr(k, 'atwins', 0) and r.random() < k.atwins:
+                # same source, target, event, guard, priority and contracts: only the actions tell them apart
+                t4 = Transition(src, tgt, event=ev, guard=guard, action='x = x + 7', priority=pr)
+                t4.preconditions, t4.postconditions, t4.invariants = (
+                    list(t.preconditions), list(t.postconditions), list(t.invariants))
+                sc.add_transition(t4)
             if k.twins and r.random() < k.twins and (k.flags or ev is not None):
                 # same source, target, event, action, priority and contracts: only the guards tell them apart
                 g = 'event.b' if (ev is not None and (not k.flags or r.random() < 0.3)) else 'v%d' % r.randrange(k.flags)
@@ -351,7 +366,21 @@ def add_mutables(rnd, sc, cell=True):
 def construction_faults(specs):
     """which of the transitions [source, target, event, guard, action, priority] do not hold what they are given"""
     out = []
-    for src, tgt, ev, guard, act, pr in specs:
+    for spec in specs:
+        if spec and spec[0] == 'dup':
+            # a statechart given the same transition twice holds two transitions
+            _, src, tgt, ev, guard, act, pr = spec
+            sc = Statechart('dup')
+            sc.add_state(CompoundState('r', initial='a'), None)
+            sc.add_state(BasicState('a'), 'r')
+            sc.add_state(BasicState('b'), 'r')
+            for _ in (0, 1):
+                sc.add_transition(Transition('a', None if tgt is None else 'b', event=ev, guard=guard, action=act, priority=pr))
+            if len(sc.transitions) != 2:
+                out.append('add_transition given Transition(…, event=%r, guard=%r, action=%r, priority=%r) twice (two objects) '
+                           'registered %d transition(s)' % (ev, guard, act, pr, len(sc.transitions)))
+            continue
+        src, tgt, ev, guard, act, pr = spec
         t = Transition(src, tgt, event=ev, guard=guard, action=act, priority=pr)
         got = [t.source, t.target, t.event, t.guard, t.action, t.priority]
         if got != [src, tgt, ev, guard, act, pr]:
